@@ -40,7 +40,12 @@ TARGETS = {
     '320c25': (0x75, 2, 'word', 40, 16, False, 'bss', 0x10000),
     '56000':  (0x09, 4, 'dc', 1, 24, True, 'ds', 0x10000),
     '320c30': (0x76, 4, 'word', 30, 32, False, 'bss', 0x1000000),
+    # byte-granular targets whose data words are two bytes, most significant byte first (the assembler swaps the bytes of its internal words
+    # on output): the model expands every value into its two address units
+    'h8/300': (0x68, 1, 'dc.w', 40, 16, True, 'ds.b', 0x10000),
+    '68000':  (0x01, 1, 'dc.w', 40, 16, True, 'ds.b', 0x10000),
 }
+WIDE = {'h8/300': 2, '68000': 2}
 # extra segments in which only ORG and reservations are generated: cpu -> [(name, seg number)]
 EXTRA_SEGS = {
     '8051': [('xdata', 4), ('data', 2), ('idata', 3)],
@@ -85,6 +90,9 @@ def gen_program(rng, big_ok=True):
         segname = 'code'
         pc = {}          # segname -> current address (units)
         addr = rng.choice([0, 1, 16, 100, limit // 2, limit // 4])
+        wide = WIDE.get(cpu, 0)
+        if wide:
+            addr &= ~1          # (word data on an odd address would be padded: kept even, this check is not about padding)
         lines.append('\torg\t%d' % addr)
         cur = None       # current open run
         nops = rng.randrange(2, 14)
@@ -100,6 +108,8 @@ def gen_program(rng, big_ok=True):
                 else:
                     nbytes = rng.randrange(1, 3000)
                 nunits = max(1, nbytes // gran)
+                if wide:
+                    nunits = max(2, nunits & ~1)
                 if addr + nunits > limit:
                     nunits = max(0, limit - addr)
                 if nunits == 0 or nunits * gran > budget_bytes:
@@ -107,7 +117,7 @@ def gen_program(rng, big_ok=True):
                 budget_bytes -= nunits * gran
                 vals = []
                 style = rng.randrange(3)
-                remaining = nunits
+                remaining = nunits // wide if wide else nunits
                 while remaining > 0:
                     if dstat in ('db',) and style == 0 and remaining >= 4:
                         # Intel DUP
@@ -123,6 +133,8 @@ def gen_program(rng, big_ok=True):
                         lines.append('\t%s\t%s' % (dstat, ','.join(str(v) for v in vs)))
                         vals += vs
                         remaining -= cnt
+                if wide:
+                    vals = [b for v in vals for b in v.to_bytes(wide, 'big')]
                 g = gran_of(cpu, segname)
                 if runs and runs[-1][0] == hdr and runs[-1][1] == seg and runs[-1][2] == g and runs[-1][3] + len(runs[-1][4]) == addr:
                     runs[-1][4].extend(vals)
@@ -131,6 +143,8 @@ def gen_program(rng, big_ok=True):
                 addr += nunits
             elif k == 6:
                 n = rng.choice([1, 2, 7, 512, 513])
+                if wide:
+                    n += n & 1
                 if addr + n > limit:
                     continue
                 if segname == 'code' or (cpu, segname) in DATA_IN_SEG or True:
@@ -140,6 +154,8 @@ def gen_program(rng, big_ok=True):
             elif k == 7:
                 lo = 0
                 addr = rng.randrange(lo, max(1, limit - 70000)) if limit > 80000 else rng.randrange(0, limit // 2)
+                if wide:
+                    addr &= ~1
                 lines.append('\torg\t%d' % addr)
                 cur = None
             elif k == 8 and cpu in EXTRA_SEGS:
@@ -169,6 +185,12 @@ def gen_program(rng, big_ok=True):
         lines.append('\tend\t%d' % entry)
     elif rng.random() < 0.5:
         lines.append('\tend')
+    if lines[-1].startswith('\tend') and rng.random() < 0.5:
+        # "END ... lines that follow are ignored": nothing of this may reach the code file
+        dstat_ = TARGETS[used[-1]][2]
+        for _ in range(rng.randrange(1, 4)):
+            lines.append(rng.choice(['\t%s\t1' % dstat_, '\torg\t%d' % rng.randrange(0, 512), '\tend\t%d' % rng.randrange(1, 512), '\tbogus statement',
+                                     '\tcpu\t6502', 'lab_after_end:']))
     src = '\n'.join(lines) + '\n'
     exp = [(r[0], r[1], r[2], r[3], r[4]) for r in runs if r[4]]
     return src, exp, entry, used, flags
